@@ -9,7 +9,7 @@ ASSUMPTIONS = [
 
 
 def run(ctx):
-    ctx, tb, dist = R.run_rt(ctx, "C19", 400, 8000, with_edits=True)
+    ctx, tb, dist = R.run_rt(ctx, "C19", 400, 3000, with_edits=True)
     return ctx.finish(tb, ASSUMPTIONS, "generated problems x edit programs: write twice, write with str/repr/format/write interleaved between the edits, and read MontePy's own output and write it again (generations); distinct = distinct (text, program)", extra={"input_distribution": dist})
 
 
